@@ -1,1 +1,274 @@
-From TypeGraph Require Import Model Lemmas.
+(* C13 — property statements only. Every theorem is closed by a lemma of Lemmas.v and
+   followed by Print Assumptions. hash / Hash / Equal / dup_* are the model of
+   expr/hasher.go, expr/types.go and expr/dup.go in Model.v; teq / env_eq is structural
+   equality under the documented rules of Hash for a flag vector. *)
+From TypeGraph Require Import Model Lemmas Sound.
+From Coq Require Import Permutation.
+
+(* ---- declaration order is irrelevant ---- *)
+
+(* attributes of an object: any permutation of a list with pairwise distinct names
+   gives the same hash (and the same seen map), for every flag vector, every
+   environment of user types (cyclic or not), every budget and every traversal state *)
+Theorem hash_perm_invariant_obj fuel fl E k fs fs' s :
+  Permutation fs fs' -> NoDup (map fname fs) ->
+  hash fuel fl E (TObj k fs) s = hash fuel fl E (TObj k fs') s.
+Proof. exact (hash_obj_perm fuel fl E k fs fs' s). Qed.
+Print Assumptions hash_perm_invariant_obj.
+
+(* values of a union (true since e87dbbd) *)
+Theorem hash_perm_invariant_union fuel fl E nm vs vs' s :
+  Permutation vs vs' -> NoDup (map fname vs) ->
+  hash fuel fl E (TUnion nm vs) s = hash fuel fl E (TUnion nm vs') s.
+Proof. exact (hash_union_perm fuel fl E nm vs vs' s). Qed.
+Print Assumptions hash_perm_invariant_union.
+
+(* meta entries (true since 67248c3): the hasher reads a meta map only through [tags],
+   which does not depend on the order in which the entries of the map are supplied *)
+Theorem hash_meta_order_invariant m m' :
+  Permutation m m' -> NoDup (map fst m) -> tags m = tags m'.
+Proof. exact (tags_perm m m'). Qed.
+Print Assumptions hash_meta_order_invariant.
+
+(* ... spelled out for the meta of an attribute of an object ... *)
+Theorem hash_meta_order_invariant_attribute fuel fl E k fs1 n i t fs2 m m' h :
+  Permutation m m' -> NoDup (map fst m) ->
+  Hash fuel fl E (TObj k (fs1 ++ F n (set_meta i m) t :: fs2)) = Some h ->
+  Hash fuel fl E (TObj k (fs1 ++ F n (set_meta i m') t :: fs2)) = Some h.
+Proof. exact (hash_meta_order_field fuel fl E k fs1 n i t fs2 m m' h). Qed.
+Print Assumptions hash_meta_order_invariant_attribute.
+
+(* ... and for the meta of the attribute of a user type anywhere in the environment
+   (this includes the struct:type:name entry that overrides the type name) *)
+Theorem hash_meta_order_invariant_user_type fuel fl E1 id d E2 m m' t h :
+  Permutation m m' -> NoDup (map fst m) ->
+  Hash fuel fl (E1 ++ (id, set_user_meta d m) :: E2) t = Some h ->
+  Hash fuel fl (E1 ++ (id, set_user_meta d m') :: E2) t = Some h.
+Proof. exact (hash_meta_order_user fuel fl E1 id d E2 m m' t h). Qed.
+Print Assumptions hash_meta_order_invariant_user_type.
+
+(* ---- same input, same answer; the recursion ends ---- *)
+
+(* Hash is a Gallina function of (flags, environment, type): repeated calls agree by
+   construction. What needs proof is that the answer does not depend on the recursion
+   budget the model is run with: *)
+Theorem hash_deterministic fl E t n m h h' :
+  Hash n fl E t = Some h -> Hash m fl E t = Some h' -> h = h'.
+Proof. exact (Hash_budget_irrelevant fl E t n m h h'). Qed.
+Print Assumptions hash_deterministic.
+
+Theorem hash_budget_monotone fl E t n m h : n <= m -> Hash n fl E t = Some h -> Hash m fl E t = Some h.
+Proof. exact (Hash_fuel_mono fl E t n m h). Qed.
+Print Assumptions hash_budget_monotone.
+
+(* Termination, for every environment in which each cycle of user types passes through
+   an object (rank strictly decreases along references that do not cross an object),
+   cyclic or not: the budget fuel_bound — computed from the number of objects, the
+   depth of the bodies and the largest rank — always suffices. wf_ty / wf_env say: user
+   type references resolve, ranks are bounded by R. *)
+Theorem hash_terminates E rank R t fl :
+  wf_env E rank (keys_ty t ++ env_keys E) (Nat.max (depth t) (env_depth E)) R ->
+  wf_ty E rank (keys_ty t ++ env_keys E) (Nat.max (depth t) (env_depth E)) R t ->
+  exists h, Hash (fuel_bound E t R) fl E t = Some h.
+Proof. exact (hash_terminates_lemma E rank R t fl). Qed.
+Print Assumptions hash_terminates.
+
+(* ---- structurally equal => same hash (completeness), every flag vector ---- *)
+
+(* Two graphs related by a correspondence of user type pointers (ru) and an injective
+   correspondence of Object pointers (rk) under the documented rules — same kinds, same
+   attribute / value names up to declaration order, same struct:field tags unless
+   ignoreTags, same user type names unless ignoreNames, bodies compared unless
+   ignoreFields — hash alike. A copy is such a graph, and so is any re-declaration. *)
+Theorem hash_complete fl ru rk dom E E' t t' fuel h :
+  (forall a b, rk a = rk b -> a = b) ->
+  env_eq fl ru rk dom E E' -> teq fl ru rk dom t t' ->
+  Hash fuel fl E t = Some h -> Hash fuel fl E' t' = Some h.
+Proof. exact (hash_complete_top fl ru rk dom E E' t t' fuel h). Qed.
+Print Assumptions hash_complete.
+
+(* ---- same hash => structurally equal (soundness): FALSE, two recorded findings ---- *)
+
+(* {a: {b: int}, c: int} and {a: {b: int, c: int}}: the attribute list of an object has
+   no closing delimiter *)
+Theorem hash_sound_refuted :
+  exists t1 t2 h, Hash 8 equal_flags [] t1 = Some h /\ Hash 8 equal_flags [] t2 = Some h /\
+                  forall ru rk dom, ~ teq equal_flags ru rk dom t1 t2.
+Proof.
+  exists w_flat, w_nested. destruct w_same_hash as [He Hn].
+  destruct (Hash 8 equal_flags [] w_flat) as [h|] eqn:E1; [|congruence].
+  exists h. repeat split; [now rewrite <- He|exact w_not_teq].
+Qed.
+Print Assumptions hash_sound_refuted.
+
+(* T = {a: T} and T' = {a: U}, U = {}: a recursive reference contributes the prefix of
+   the enclosing object's string built so far *)
+Theorem hash_sound_recursive_refuted :
+  exists E1 E2 t1 t2 h, Hash 8 equal_flags E1 t1 = Some h /\ Hash 8 equal_flags E2 t2 = Some h /\
+    forall ru rk dom, ~ (teq equal_flags ru rk dom t1 t2 /\ env_eq equal_flags ru rk dom E1 E2).
+Proof.
+  exists e_rec, e_cut, (TUser 0), (TUser 0). destruct rec_same_hash as [He Hn].
+  destruct (Hash 8 equal_flags e_rec (TUser 0)) as [h|] eqn:E1; [|congruence].
+  exists h. repeat split; [now rewrite <- He|exact rec_not_teq].
+Qed.
+Print Assumptions hash_sound_recursive_refuted.
+
+(* ... TRUE inside the class cls, which is the negation of the signatures of the two
+   findings plus clean names: no user types (hence no recursive reference); attribute
+   names without '/', union value names without '|', union type names without '-' ':'
+   '_'; pairwise distinct names; and in every object (union) only the attribute (value)
+   that sorts last may have a type whose hash ends in an open attribute (value) list.
+   There, equal hashes under the flags of Equal imply equal structure up to declaration
+   order (tsim): the string can be parsed back. The Object pointers of each type are
+   pairwise distinct (a tree). *)
+Theorem hash_sound_partial E1 E2 t1 t2 f1 f2 h :
+  cls t1 -> cls t2 -> NoDup (keys_ty t1) -> NoDup (keys_ty t2) ->
+  Hash f1 equal_flags E1 t1 = Some h -> Hash f2 equal_flags E2 t2 = Some h -> tsim t1 t2.
+Proof. exact (hash_sound_partial_lemma E1 E2 t1 t2 f1 f2 h). Qed.
+Print Assumptions hash_sound_partial.
+
+(* ... and there the hash is the closed form hpure, whatever the budget above the depth *)
+Theorem hash_closed_form E t :
+  cls t -> NoDup (keys_ty t) -> Hash (S (depth t)) equal_flags E t = Some (hpure t).
+Proof.
+  intros Hc Hn. unfold Hash.
+  destruct (hash_is_hpure E t Hc Hn (S (depth t)) (Nat.lt_succ_diag_r _) []) as (s' & -> & _); [|reflexivity].
+  intros x _. reflexivity.
+Qed.
+Print Assumptions hash_closed_form.
+
+(* ---- copies (expr.Dup) ----
+   The copy of user type pointer id is named offu + id and the copy of Object pointer
+   key is named offk + key; uid_inj: distinct user types have distinct ID() (the memo of
+   the dupper is keyed by it); names_ok: attribute names of an object are pairwise
+   distinct. *)
+
+(* Copying ends, with the budget dup_fuel, for every environment, cyclic or not *)
+Theorem dup_terminates E offu offk t :
+  dwf_env E (Nat.max (depth t) (env_depth E)) -> dwf E (Nat.max (depth t) (env_depth E)) t ->
+  exists E' t', Dup E offu offk (dup_fuel E t) t = Some (E', t').
+Proof. exact (dup_terminates_lemma E offu offk t). Qed.
+Print Assumptions dup_terminates.
+
+(* The copy is the original with every pointer renamed: its root is shift_ty of the
+   root, and every user type of the copy is shift_def of the user type it stands for
+   (all fields kept except Docs and ContentType, see below). *)
+Theorem dup_is_renaming E offu offk fuel t E' t' :
+  (forall id id' d d', elookup id E = Some d -> elookup id' E = Some d' -> ut_id d = ut_id d' -> id = id') ->
+  (forall id d, elookup id E = Some d -> names_ok (ut_type d)) ->
+  names_ok t -> Dup E offu offk fuel t = Some (E', t') ->
+  t' = shift_ty offu offk t /\
+  exists dom : nat -> Prop,
+    (forall v, In v (users_ty t) -> dom v) /\
+    (forall id d, dom id -> elookup id E = Some d ->
+       elookup (offu + id) E' = Some (shift_def offu offk d) /\ forall v, In v (users_ty (ut_type d)) -> dom v) /\
+    (forall x d', In (x, d') E' -> exists id d, x = offu + id /\ elookup id E = Some d /\ d' = shift_def offu offk d).
+Proof. intros H1 H2. exact (dup_result E offu offk H1 H2 fuel t E' t'). Qed.
+Print Assumptions dup_is_renaming.
+
+(* Hash(Dup t) = Hash(t): under every flag vector, for every environment (recursive
+   and mutually recursive types included); the copy is hashed in its own environment E'
+   alone — it does not point into the original *)
+Theorem dup_equal E offu offk fl fuel f t E' t' h :
+  (forall id id' d d', elookup id E = Some d -> elookup id' E = Some d' -> ut_id d = ut_id d' -> id = id') ->
+  (forall id d, elookup id E = Some d -> names_ok (ut_type d)) ->
+  names_ok t -> Dup E offu offk fuel t = Some (E', t') ->
+  Hash f fl E t = Some h -> Hash f fl E' t' = Some h.
+Proof. intros H1 H2. exact (dup_equal_lemma E offu offk H1 H2 fl fuel f t E' t' h). Qed.
+Print Assumptions dup_equal.
+
+(* every user type pointer and every Object pointer of the copy is fresh *)
+Theorem dup_fresh E offu offk fuel t E' t' :
+  (forall id id' d d', elookup id E = Some d -> elookup id' E = Some d' -> ut_id d = ut_id d' -> id = id') ->
+  (forall id d, elookup id E = Some d -> names_ok (ut_type d)) ->
+  names_ok t -> Dup E offu offk fuel t = Some (E', t') ->
+  (forall v, In v (users_ty t') -> offu <= v) /\ (forall k, In k (keys_ty t') -> offk <= k) /\
+  (forall x d', In (x, d') E' ->
+     offu <= x /\ (forall v, In v (users_ty (ut_type d')) -> offu <= v) /\ (forall k, In k (keys_ty (ut_type d')) -> offk <= k)).
+Proof. intros H1 H2. exact (dup_fresh_lemma E offu offk H1 H2 fuel t E' t'). Qed.
+Print Assumptions dup_fresh.
+
+(* Independence at the level the model has pointers for (user types; every node below is
+   a value of the model, and the absence of sharing there is established on the real code
+   by the harness on every run): after any sequence of writes through the copy — each one
+   rebinds a user type pointer the copy reaches, all of which are fresh by dup_fresh, or a
+   pointer allocated later — every user type of the original reads what it read before. *)
+Theorem dup_independent E offu offk fuel t E' t' :
+  (forall id id' d d', elookup id E = Some d -> elookup id' E = Some d' -> ut_id d = ut_id d' -> id = id') ->
+  (forall id d, elookup id E = Some d -> names_ok (ut_type d)) ->
+  names_ok t -> Dup E offu offk fuel t = Some (E', t') ->
+  (forall id d, elookup id E = Some d -> id < offu) ->
+  forall ws, Forall (fun w => offu <= fst w) ws ->
+  forall id d, elookup id E = Some d -> elookup id (apply_writes ws (E' ++ E)) = Some d.
+Proof. exact (dup_writes_invisible E offu offk fuel t E' t'). Qed.
+Print Assumptions dup_independent.
+
+(* FALSE for views (recorded finding): the copy of a result type reaches the very view
+   pointers of the original, so a write through the copy's view is a write to the
+   original's view *)
+Theorem dup_views_shared_refuted :
+  exists E t offu offk E' t' v,
+    Dup E offu offk (dup_fuel E t) t = Some (E', t') /\ In v (views_of E') /\ In v (views_of E).
+Proof.
+  destruct views_shared_example as (E' & t' & H1 & H2 & H3).
+  exists e_views, (TUser 0), 1, 1, E', t', 0. auto.
+Qed.
+Print Assumptions dup_views_shared_refuted.
+
+(* ... and nothing else: the views the copy reaches are views of the original, so a
+   graph without views has a copy that shares nothing *)
+Theorem dup_views_partial E offu offk fuel t E' t' :
+  (forall id id' d d', elookup id E = Some d -> elookup id' E = Some d' -> ut_id d = ut_id d' -> id = id') ->
+  (forall id d, elookup id E = Some d -> names_ok (ut_type d)) ->
+  names_ok t -> Dup E offu offk fuel t = Some (E', t') ->
+  incl (views_of E') (views_of E) /\ (views_of E = [] -> views_of E' = []).
+Proof.
+  intros H1 H2 H3 H4. pose proof (dup_views_lemma E offu offk H1 H2 fuel t E' t' H3 H4) as Hi.
+  split; [exact Hi|]. intro Hn. rewrite Hn in Hi. destruct (views_of E') as [|v r]; [reflexivity|].
+  exfalso. exact (Hi v (or_introl eq_refl)).
+Qed.
+Print Assumptions dup_views_partial.
+
+(* Fields the copy loses (two recorded findings, patch proposed): DupAttribute does not
+   copy Docs, ResultTypeExpr.Dup does not copy ContentType; every other field is kept *)
+Theorem dup_keeps_fields_refuted : (exists i, dup_info i <> i) /\ (exists r, dup_rt r <> r).
+Proof. exact (conj dup_info_docs_lost dup_rt_ctype_lost). Qed.
+Print Assumptions dup_keeps_fields_refuted.
+
+Theorem dup_keeps_fields_partial i r :
+  (a_docs i = false -> dup_info i = i) /\ ((forall x, r = Some x -> rt_ctype x = []) -> dup_rt r = r).
+Proof. exact (conj (dup_info_id i) (dup_rt_id r)). Qed.
+Print Assumptions dup_keeps_fields_partial.
+
+(* ---- non-vacuity ---- *)
+
+(* the hypotheses of hash_terminates hold for a mutually recursive pair T1 = {a: T2},
+   T2 = {b: T1}, and the model computes the string the Go code returns for it *)
+Example terminates_example :
+  let E := [(0, UT [84;49]%N [] ai_none (TObj 0 [F [97%N] ai_none (TUser 1)]) None);
+            (1, UT [84;50]%N [] ai_none (TObj 1 [F [98%N] ai_none (TUser 0)]) None)] in
+  Hash (fuel_bound E (TUser 0) 0) (FL false false false) E (TUser 0)
+  = Some ([95;116;95;84;49;33;95;111;95;45;97;47;95;116;95;84;50;33;95;111;95;45;98;47;95;116;95;84;49;33;95;111;95]%N).
+Proof. vm_compute. reflexivity. Qed.
+
+Example perm_example :
+  let a := F [97%N] ai_none tInt in let b := F [98%N] ai_none (TPrim PString) in let c := F [99%N] ai_none tInt in
+  Hash 4 equal_flags [] (TUnion [85%N] [c; a; b]) = Hash 4 equal_flags [] (TUnion [85%N] [a; b; c])
+  /\ Hash 4 equal_flags [] (TUnion [85%N] [a; b; c]) <> None.
+Proof. vm_compute. split; [reflexivity|discriminate]. Qed.
+
+(* the hypotheses of dup_equal hold for the mutually recursive pair above, and the model
+   computes a copy of it *)
+Example dup_example :
+  let E := [(0, UT [84;49]%N [] ai_none (TObj 0 [F [97%N] ai_none (TUser 1)]) None);
+            (1, UT [84;50]%N [] ai_none (TObj 1 [F [98%N] ai_none (TUser 0)]) None)] in
+  Dup E 2 2 (dup_fuel E (TUser 0)) (TUser 0)
+  = Some ([(2, UT [84;49]%N [] ai_none (TObj 2 [F [97%N] ai_none (TUser 3)]) None);
+           (3, UT [84;50]%N [] ai_none (TObj 3 [F [98%N] ai_none (TUser 2)]) None)], TUser 2).
+Proof. vm_compute. reflexivity. Qed.
+
+(* the class of hash_sound_partial is inhabited, contains {a:{b:int,c:int}} and {c:int, z:{b:int}},
+   and excludes {a:{b:int}, c:int} *)
+Example sound_class_example :
+  cls (TObj 0 [F [99%N] ai_none tInt; F [122%N] ai_none (TObj 1 [F [98%N] ai_none tInt])]) /\ ~ cls w_flat /\ cls w_nested.
+Proof. exact cls_example. Qed.
